@@ -321,6 +321,38 @@ def _gen_wide(rng, tier):
             tf = None
         yield {"prop": PROP, "op": "yaml", "kind": "fiber", "d": depth, "dflt": dflt, "name": "",
                "build": {"nest": nest, "transform": tf, "perm_seed": rng.randrange(1000)}}
+    # --- defaults that are not numbers: None ("no empty value"), "" and () — every entry is non-default
+    NN = [{"nonnum": "None"}, {"nonnum": "str"}, {"nonnum": "tuple"}]
+    for dims in _dims_upto(1, 3) + _dims_upto(2, 4):
+        n = 1
+        for x in dims:
+            n *= x
+        for bits in itertools.product([False, True], repeat=n):
+            nest = _nest_from_flat(dims, [3 if b2 else 0 for b2 in bits])
+            for dflt in NN[:1] if quick and len(dims) == 2 else NN:
+                for kind in ("fiber", "tensor"):
+                    yield {"prop": PROP, "op": "fromU", "kind": kind, "d": len(dims), "dflt": dflt,
+                           "dims": dims, "nest": nest}
+                    if n <= 2 or not quick:
+                        yield {"prop": PROP, "op": "yaml", "kind": kind, "d": len(dims), "dflt": dflt, "name": "N",
+                               "build": {"fiber_nest": nest} if kind == "fiber" else {"nest": nest, "transform": None}}
+    for shape in ([3], [2, 2], [2, 1, 2]):
+        for q in (0.0, 0.5, 1.0):
+            for dflt in NN:
+                for kind in ("fiber", "tensor"):
+                    yield {"prop": PROP, "op": "random", "kind": kind, "shape": shape, "density": q,
+                           "interval": 3, "seed": 1, "dflt": dflt}
+    for i in range(100 if quick else 4000):
+        depth = rng.choice([1, 2, 3])
+        dims = [rng.choice([1, 2, 3]) for _ in range(depth)]
+        dflt = rng.choice(NN)
+        nest = _rand_nest(rng, dims, 0, rng.choice([INTS, FLOATS]), 0.4)
+        kind = rng.choice(["fiber", "tensor"])
+        if rng.random() < 0.5:
+            yield {"prop": PROP, "op": "fromU", "kind": kind, "d": depth, "dflt": dflt, "dims": dims, "nest": nest}
+        else:
+            yield {"prop": PROP, "op": "yaml", "kind": kind, "d": depth, "dflt": dflt, "name": rng.choice(["", "T"]),
+                   "build": {"fiber_nest": nest} if kind == "fiber" else {"nest": nest, "transform": None}}
     # --- random: extents beyond one digit
     for shape in ([12], [11, 2], [2, 11], [10, 1, 2]):
         for q in (0.0, 0.25, 0.5, 0.75, 1.0):
@@ -342,6 +374,45 @@ def gen(seed, tier):
 # ---------------------------------------------------------------------------------------
 # abstraction function
 # ---------------------------------------------------------------------------------------
+
+NONNUM = {"None": None, "str": "", "tuple": ()}
+
+
+def _pyd(d):
+    """the Python default a case's "dflt" stands for: a number, or {"nonnum": kind} for None / "" / ()"""
+    return NONNUM[d["nonnum"]] if isinstance(d, dict) else d
+
+
+def _dnum(v):
+    """a default as JSON (inverse of _pyd)"""
+    Payload = H.ft().Payload
+    v = Payload.get(v)
+    for k, x in NONNUM.items():
+        if v is x or (type(v) is type(x) and x is not None and v == x):
+            return {"nonnum": k}
+    return _num(v)
+
+
+def _leaf_default(root, depth, fallback):
+    """the default the object's leaf-level fibers report (tensor: the leaf rank's); `fallback` when no
+    leaf-level fiber exists (an empty fiber above the leaf level)"""
+    Fiber, Payload = H.ft().Fiber, H.ft().Payload
+    found = []
+
+    def walk(f, lvl):
+        if lvl == depth - 1:
+            found.append(_dnum(f.getDefault()))
+            return
+        for p in f.payloads:
+            p = Payload.get(p)
+            if isinstance(p, Fiber):
+                walk(p, lvl + 1)
+    if isinstance(root, Fiber):
+        walk(root, 0)
+    if not found:
+        return fallback
+    return found[0] if all(x == found[0] for x in found) else {"obj": "mixed-defaults"}
+
 
 def _num(v):
     if isinstance(v, bool):
@@ -411,7 +482,7 @@ def _try(fn):
 def _run_fromU(case):
     ft = H.ft()
     nest0 = copy.deepcopy(case["nest"])
-    dims, dflt = case["dims"], case["dflt"]
+    dims, dflt = case["dims"], _pyd(case["dflt"])
     impl, side, errs = {}, {}, {}
     if case["kind"] == "fiber":
         obj, e = _try(lambda: ft.Fiber.fromUncompressed(case["nest"], default=dflt))
@@ -427,6 +498,9 @@ def _run_fromU(case):
         impl.update({"tree": None, "shape": None, "unc": None, "unc0": None})
     else:
         impl["tree"] = snap(root)
+        # the default the built object itself reports for its leaf level (content is relative to it)
+        impl["dflt"] = (_dnum(obj.getDefault()) if case["kind"] == "tensor"
+                        else _leaf_default(root, len(dims), case["dflt"]))
         sh, e = _try(lambda: obj.getShape())
         impl["shape"] = _plain(sh)
         if e:
@@ -506,7 +580,7 @@ def _unc(u, depth=None):
 def _build_yaml_obj(case):
     """returns (object, default) : a Tensor or a Fiber built through public constructors"""
     ft = H.ft()
-    b, d, dflt = case["build"], case["d"], case["dflt"]
+    b, d, dflt = case["build"], case["d"], _pyd(case["dflt"])
     name = case.get("name", "")
     if "rank0" in b:
         if b["how"] == "ctor":
@@ -578,7 +652,21 @@ def _build_fiber(tree, depth, dflt):
 def _odflt(obj, is_tensor, depth, case):
     """the leaf default the object really has (some transforms do not carry it)"""
     Payload = H.ft().Payload
-    return Payload.get(obj.getDefault()) if is_tensor and depth >= 1 else case["dflt"]
+    return Payload.get(obj.getDefault()) if is_tensor and depth >= 1 else _pyd(case["dflt"])
+
+
+_TMP = {}
+
+
+def _proc_tmp():
+    """one scratch directory per worker process (file names are re-used across cases on purpose)"""
+    pid = os.getpid()
+    if pid not in _TMP:
+        import atexit, shutil
+        d = tempfile.mkdtemp(prefix=f"c13-{pid}-")
+        _TMP[pid] = d
+        atexit.register(shutil.rmtree, d, True)
+    return _TMP[pid]
 
 
 def _run_yaml(case):
@@ -602,7 +690,10 @@ def _run_yaml(case):
     orig["depth"] = depth
     # the leaf default the object really has (some transforms, e.g. unflattenRanks, do not carry it)
     odflt = _odflt(obj, is_tensor, depth, case)
-    orig["dflt"] = _num(odflt)
+    orig["dflt"] = _dnum(odflt)
+    # the default asked for at construction (transforms may legitimately not carry it: C14)
+    if not (case["build"].get("transform") or "rank0" in case["build"]):
+        orig["req_dflt"] = case["dflt"]
     case["orig"] = orig
     impl, side, errs = {}, {}, {}
 
@@ -630,8 +721,17 @@ def _run_yaml(case):
         impl["dict_eq"] = False
 
     # YAML file
-    with tempfile.TemporaryDirectory(prefix="c13-") as tmp:
-        path = os.path.join(tmp, "x.yaml")
+    # the SAME path is used by every case of this process, and within the case it is first written and loaded
+    # with a different object of the same kind (state kept per file name must not leak into the round trip)
+    tmp = _proc_tmp()
+    if True:
+        path = os.path.join(tmp, "tensor.yaml" if is_tensor else "fiber.yaml")
+        decoy = (Tensor.fromFiber(rank_ids=["Q"], fiber=Fiber([5], [41]), name="decoy") if is_tensor
+                 else Fiber([5], [41]))
+        _try(lambda: decoy.dump(path))
+        _try(lambda: Tensor.fromYAMLfile(path) if is_tensor else Fiber.fromYAMLfile(path))
+        if is_tensor:
+            _try(lambda: Tensor(yamlfile=path))
         _, e = _try(lambda: obj.dump(path))
         loaded = cloaded = None
         if e:
@@ -674,7 +774,7 @@ def _run_yaml(case):
             impl["loaded"] = {"tree": snap(lroot), "rank_ids": [json.dumps(_plain(r)) for r in loaded.getRankIds()],
                               "shape": _shape(loaded.getShape()), "name": loaded.getName()}
             if depth >= 1:
-                impl["loaded_dflt"] = _num(Payload.get(loaded.getDefault()))
+                impl["loaded_dflt"] = _dnum(loaded.getDefault())
         else:
             impl["loaded"] = {"tree": snap(lroot), "rank_ids": [], "shape": [], "name": ""}
             impl["loaded_fshape"] = _plain(_try(lambda: loaded.getShape())[0])
@@ -720,7 +820,7 @@ def _run_random(case):
     ft = H.ft()
     fm = ft.fiber_mod
     shape, density, interval = case["shape"], case["density"], case["interval"]
-    seed, dflt = case["seed"], case["dflt"]
+    seed, dflt = case["seed"], _pyd(case["dflt"])
     impl, side, errs = {}, {}, {}
 
     def build():
@@ -743,6 +843,8 @@ def _run_random(case):
         r1 = o1.getRoot() if case["kind"] == "tensor" else o1
         impl["tree"] = snap(r1)
         impl["shape"] = _plain(o1.getShape()) if case["kind"] == "tensor" else None
+        impl["dflt"] = (_dnum(o1.getDefault()) if case["kind"] == "tensor" and len(shape) >= 1
+                        else _leaf_default(r1, len(shape), case["dflt"]))
         impl["us"] = [int(u * (1 << 53)) for u in rec.us]
         impl["is"] = list(rec.ints)
         side["draws_exact"] = all(int(u * (1 << 53)) == u * (1 << 53) for u in rec.us)
